@@ -229,4 +229,25 @@ PROPS["C11"] = {
     "level_note": "interleavings of a sign-out with a concurrent refreshing request are explored under C12's scheduler, not here.",
 }
 
+PROPS["C12"] = {
+    "drivers": [dict(MAIN, timeout=3000)],
+    "rule": "the real StoredSessionLoader over persistence.Manager and an in-memory store whose every operation (get/set/del/lock-obtain/"
+            "lock-release) and every identity-provider token call first asks a deterministic scheduler which request may proceed: "
+            "depth-first enumeration of the schedules of 2 concurrent requests sharing a stale session (preemption bound 3 in quick, "
+            "unbounded in thorough), of 3 requests (bound 2 / 3), and of a sign-out racing a refreshing request; the identity provider "
+            "issues single-use rotating refresh tokens; each schedule's trace is replayed on the model (`run`); plus sequential cases: "
+            "session age {1, 59, 61, 600 min} against a 60 min refresh period x {refresh token present, refresh accepted, old/new session "
+            "validates} x both stores; non-trivial = every schedule / case",
+    "assumptions": ["sessions are abstracted to a token version in the model; a request's operations are the yield points of the scheduler "
+                    "(one model step per store/lock/provider operation)",
+                    "no lock-expiry step (the property's proviso); the expiry boundary is shown as a concrete trace (expiry_boundary)"],
+    "trusted_base": ["the scheduler in the driver (a request blocked on a held lock is not schedulable)"],
+    "level_text": "c12_once is proved for ANY number of requests and ANY interleaving (inductive three-phase invariant over the transition "
+                  "system of Model/Refresh.v): at most one refresh, none with a consumed token, every finished request served with the "
+                  "refreshed session; c12_never_stale, c12_seq_never_stale, c12_run_reachable; the model is run on every schedule the Go "
+                  "scheduler explores and the per-schedule outcome (refresh counts, each request's result and upstream token) compared.",
+    "level_note": "_partial: preemption inside a store operation, Redis' own atomicity, the redislock implementation and wall-clock lock TTL "
+                  "are runtime behaviour the model cannot exhibit; they are covered only by the thorough tier's concurrent run.",
+}
+
 NOT_APPLICABLE = {}
